@@ -134,15 +134,37 @@ func sext(v uint64, w int) int64 {
 	return int64(v<<s) >> s
 }
 
-// liftable: an ite whose branches are both constants (so an op with a constant folds).
+// liftable: an ite tree whose leaves are all constants (so an op with a constant folds at every leaf).
+// The node budget keeps balanced trees from blowing up; linear chains (table lookups) of a few hundred entries pass.
 func iteConstLeaves(t *Term, depth int) bool {
 	if t.Op == OpConst {
 		return true
 	}
-	if t.Op == OpIte && depth > 0 {
-		return iteConstLeaves(t.Args[1], depth-1) && iteConstLeaves(t.Args[2], depth-1)
+	if t.Op != OpIte {
+		return false
 	}
-	return false
+	budget := 700
+	return iteLeavesConst(t, &budget)
+}
+
+func iteLeavesConst(t *Term, budget *int) bool {
+	for {
+		*budget--
+		if *budget < 0 {
+			return false
+		}
+		if t.Op == OpConst {
+			return true
+		}
+		if t.Op != OpIte {
+			return false
+		}
+		// recurse into the smaller-looking branch, loop on the other (chains are right-nested)
+		if !iteLeavesConst(t.Args[1], budget) {
+			return false
+		}
+		t = t.Args[2]
+	}
 }
 
 func (c *Ctx) mapIte(t *Term, f func(*Term) *Term) *Term {
